@@ -28,6 +28,9 @@ var c06Pairs = [][][2]string{
 	{{"a", `"`}},
 	{{"a", `="`}, {"b", `"x`}},
 	{{"b", `"q"`}},
+	// white space that does not separate arguments (only blank and TAB do) belongs to the key / the replacement
+	{{"a", "\u00a0q"}},
+	{{"a\u00a0", "q"}, {"b", "r\vs"}},
 }
 
 type c06Case struct {
